@@ -113,7 +113,9 @@ type world struct {
 }
 
 var rawURIs = []string{"/x", "/a/b?c=d&e=f", "/", "//evil.test/p", "/\\evil.test/p", "/%2Fevil.test", "/.//evil.test", "/x/../../evil.test", "/p?next=http://evil.test/", "/@evil.test", "/deep/path/with/segments?q=1",
-	"/./%5Cevil.test/", "/a/../%5Cevil.test/x", "/%09/evil.test/", "/./%2Fevil.test/", "/a/%2E%2E/%2Fevil.test", "/%5C%5Cevil.test", "/x/..%2F..%2F%5Cevil.test"}
+	"/./%5Cevil.test/", "/a/../%5Cevil.test/x", "/%09/evil.test/", "/./%2Fevil.test/", "/a/%2E%2E/%2Fevil.test", "/%5C%5Cevil.test", "/x/..%2F..%2F%5Cevil.test",
+	// raw backslashes and dot segments: what the redirect helper's path cleaning may turn into a leading "/\" or "//"
+	"/./\\evil.test/p", "/x/../\\evil.test", "/a/b/../../\\evil.test/?q=1", "/.//\\evil.test", "/./\\/evil.test", "/x/..\\evil.test", "/..\\..\\evil.test", "/.\\evil.test"}
 
 func (w *world) sym(v string) string {
 	if v == "" {
